@@ -204,7 +204,7 @@ func runSpecWith(e *RunEnv, spec *Spec, before func(x *Explorer), extraCov func(
 // rejudge re-executes the full trace of v from the empty state and applies the
 // spec's oracles to the last step.
 func rejudge(e *RunEnv, spec *Spec, v *Violation) []Violation {
-	followSeen = sync.Map{} // a replay judges every follow-up again
+	followSeen, c18After = sync.Map{}, sync.Map{} // a replay judges every follow-up again
 	x := NewExplorer(spec, e.B.GoitV, filepath.Join(e.B.Scratch, fmt.Sprintf("rj%d", time.Now().UnixNano())), 1, time.Now().Add(5*time.Minute))
 	c := x.ctxs[0]
 	cur := &Node{State: NewState()}
